@@ -50,6 +50,25 @@ fn core_digest() -> u64 {
         if a.mag != 0.0 { d.g(a.inv()); d.g(a.normalize()); d.g(*b / *a); d.g(a.pow(1.5)); }
         d.g(Geonum::new_from_cartesian(a.mag.min(3.0) - 1.0, 0.5 - i as f64));
     }
+    // threshold battery: operands straddling every tolerance of the core (1e-10 cancellation / guard /
+    // orthogonality / boundary snap, 1e-15 equality) at several distances from it, so that a tolerance that
+    // depends on a feature flag changes the digest
+    let q = std::f64::consts::FRAC_PI_2;
+    for (k, dm) in [1e-9, 2e-10, 5e-11, 2e-11, 1e-12, 1e-13, 1e-14, 1e-16].iter().enumerate() {
+        for base in [1.0, 1e-3, 250.0] {
+            let a = Geonum::new_with_blade(base + dm, 1 + k, 1.0, 6.0);
+            let b = Geonum::new_with_blade(base, 3 + k, 1.0, 6.0);           // exactly a half turn apart
+            d.g(a + b); d.g(b + a); d.g(a - b.negate()); d.g(&a + &b);
+            let t = Geonum::new(*dm * base, 1.0, 5.0);                         // very short projection target
+            d.g(a.project(&t)); d.g(a.reject(&t)); d.u(a.is_orthogonal(&t) as u64); d.g(a.dot(&t)); d.g(a.wedge(&t));
+            let e1 = Angle::new(1.0, 7.0); let e2 = e1 + Angle::new(*dm, std::f64::consts::PI);
+            d.u((e1 == e2) as u64); d.u(e1.cmp(&e2) as i8 as u64); d.a(e2 - e1); d.a(e1 - e2);
+            let nb = Angle::new(q - dm, std::f64::consts::PI); d.a(nb); d.a(nb + e1); d.a(nb + nb); d.a(Angle::new(q + dm, std::f64::consts::PI));
+            let g1 = Geonum::new_with_angle(base, e1); let g2 = Geonum::new_with_angle(base + dm, e2);
+            d.g(g1 + g2); d.g(g1.distance_to(&g2)); d.u((g1 == g2) as u64);
+            if *dm * base > 0.0 { d.g(a.invert_circle(&b, base)); }
+        }
+    }
     let c = GeoCollection::from(s.clone());
     d.f(c.total_magnitude());
     if let Some(g) = c.dominant() { d.g(*g); }
